@@ -253,7 +253,9 @@ def build(ctx, spec, mdl):
     from prysm.x.raytracing.surfaces import Surface
     typ = spec['typ']
     n1 = float(spec['n'])
-    nfun = (lambda wvl, _n=n1: _n) if typ == 'refr' else None
+    # dispersive index: exactly n1 at the wavelength the checked trace uses (0.6328), all indices scaled by the same factor
+    # elsewhere (so that no ray is pushed past the critical angle by a warm-up trace at another wavelength)
+    nfun = (lambda wvl, _n=n1: _n * (1.0 + 0.02 * (0.6328 - wvl) / 0.6328)) if typ == 'refr' else None
     P = [float(v) for v in spec['P']]
     R = None if spec.get('R') is None else tuple(float(v) for v in spec['R'])
     kind = mdl.kind
@@ -315,6 +317,8 @@ def make_rays(case, mdl0):
             rows.append((float(ff[i]), float(r.uniform(0, 360)), float(r.uniform(0, 30)), float(r.uniform(0, 360))))
             classes.append('random')
     a = np.asarray(rows, dtype=float).reshape(-1, 4)
+    if d >= 1e50:
+        a[:, 2] = 0.0     # a bundle 'from infinity' is collimated along the axis, as the raytrace docstring describes it
     rho = a[:, 0] * mdl0.rho_max
     az = np.radians(a[:, 1])
     tilt = np.radians(a[:, 2])
@@ -329,6 +333,15 @@ def make_rays(case, mdl0):
     return P0, S, classes
 
 
+def near_origins(case, mdl0):
+    """the same rays as make_rays() with their origins a moderate distance behind the aim points: the harness' closed-form
+    reference step (domain decision) uses these, because its own arithmetic would cancel catastrophically for origins 'at
+    infinity' (d = 1e7 ... 1e99, which the raytrace docstring documents as valid)."""
+    c2 = dict(case)
+    c2['d'] = min(float(case['d']), 50.0)
+    return make_rays(c2, mdl0)[0]
+
+
 # ---- the step-by-step check ----------------------------------------------------------------------------------------
 def check_trace(case, ctx):
     """raytrace() through 1..3 surfaces: every step keeps the ray on its line and on the sag, |S'|=1, law of reflection / vector Snell law."""
@@ -339,12 +352,22 @@ def check_trace(case, ctx):
     frames = [check_frame(ctx, sf, s) for sf, s in zip(surfs, specs)]
     n_amb = float(case['n_ambient'])
 
+    if float(case['d']) >= 1e50 and specs[0].get('R') is not None:
+        # with a tilted first surface the rotation of a 1e99-long lever arm is meaningless in floating point; the 'from
+        # infinity' launch of the docstring is exercised on untilted first surfaces, tilted ones get a merely very distant origin
+        case = dict(case)
+        case['d'] = 1e10
     P0l, S0l, classes = make_rays(case, mdls[0])
     # to global coordinates (harness arithmetic)
     Pg, Sg = frame_to_global(P0l, S0l, *frames[0])
     # reference step at the first surface: drop rays outside the quantifier before prysm sees them
     mdl, spec, (P, R) = mdls[0], specs[0], frames[0]
     Pl, Sl = frame_to_local(Pg, Sg, P, R)
+    far = float(case['d']) > 1e4
+    if far:
+        ctx.label('origin-far:%g' % float(case['d']))
+        Pl = near_origins(case, mdls[0])        # same lines, nearer origins, in the local frame of the first surface
+        Sl = S0l
     n_out0 = float(spec['n']) if spec['typ'] == 'refr' else n_amb
     _, _, keep = ref_step(mdl, spec['typ'], n_amb, n_out0, Pl, Sl)
     ctx.tally('rays_generated', len(keep))
@@ -362,6 +385,11 @@ def check_trace(case, ctx):
               *('R:' + ('none' if s.get('R') is None else 'z-only' if s['R'][1] == 0 and s['R'][2] == 0 else 'general') for s in specs),
               *set('ray:' + c for c in classes))
 
+    if case.get('warmup', False):
+        # the same Surface objects traced first at another wavelength: the indices are dispersive (see build), and the
+        # trace that is checked below must use n(0.6328), not anything remembered from the earlier wavelength
+        ctx.label('retrace-after-other-wavelength')
+        ctx.call(sm.raytrace, surfs, Pg.copy(), Sg.copy(), 0.5, n_amb)
     if single:
         ph, sh = ctx.call(sm.raytrace, surfs, Pg[0].copy(), Sg[0].copy(), 0.6328, n_amb)
         ph = np.asarray(ph)
@@ -439,8 +467,9 @@ def check_step(ctx, mdl, typ, n_in, n_out, P0, S0, P1, S1, j, spec, onaxis):
     e = np.abs(P1[:, 2] - z)
     e = np.where(np.isfinite(e), e, np.inf)
     i = int(np.argmax(e))
-    ctx.require(e[i] <= POS_TOL * L, 'intersect:off-surface',
-                '%s: intersection %s has z - sag = %.3g (tol %.3g) for ray P=%s S=%s' % (where, _fmt(P1[i]), e[i], POS_TOL * L, _fmt(P0[i]), _fmt(S0[i])))
+    Ls = max(1.0, float(np.max(np.abs(P1))))      # scale of the surface, whatever the distance of the ray origin
+    ctx.require(e[i] <= POS_TOL * Ls, 'intersect:off-surface',
+                '%s: intersection %s has z - sag = %.3g (tol %.3g) for ray P=%s S=%s' % (where, _fmt(P1[i]), e[i], POS_TOL * Ls, _fmt(P0[i]), _fmt(S0[i])))
     nrm = mdl.normal(P1[:, 0], P1[:, 1])
     ci = dot(S0, nrm)
     lawtol = LAW_TOL_Q if mdl.q is not None else LAW_TOL
@@ -533,7 +562,8 @@ def strat_single(tier):
         'n_ambient': st.one_of(st.just(1.0), _i(1000, 1900, 1000)),
         'rays': st.lists(ray_s(), min_size=0, max_size=5),
         'nrand': st.one_of(st.just(0), st.integers(0, nmax)), 'seed': U.seeds,
-        'dirz': st.sampled_from([1, 1, -1]), 'd': _i(10, 500, 10),
+        'dirz': st.sampled_from([1, 1, -1]), 'd': st.one_of(_i(10, 500, 10), _i(10, 500, 10), _i(10, 500, 10), st.sampled_from([1e7, 1e10, 1e99])),
+        'warmup': st.booleans(),
         'form': st.sampled_from(['batch', 'batch', 'batch', 'single1d']),
     }).filter(lambda c: len(c['rays']) + c['nrand'] >= 1)
 
@@ -563,7 +593,8 @@ def strat_prescription(tier):
     base = st.fixed_dictionaries({
         'n_ambient': st.one_of(st.just(1.0), _i(1000, 1900, 1000)),
         'rays': st.lists(ray_s().map(lambda r: [r[0], r[1] // 2, r[2], r[3] // 3, r[4]]), min_size=0, max_size=4),
-        'nrand': st.integers(0, 24), 'seed': U.seeds, 'dirz': st.sampled_from([1, 1, -1]), 'd': _i(10, 300, 10),
+        'nrand': st.integers(0, 24), 'seed': U.seeds, 'dirz': st.sampled_from([1, 1, -1]),
+        'd': st.one_of(_i(10, 300, 10), _i(10, 300, 10), _i(10, 300, 10), st.sampled_from([1e7, 1e10])), 'warmup': st.booleans(),
         'form': st.sampled_from(['batch', 'batch', 'batch', 'single1d'])})
     return st.integers(2, 3).flatmap(lambda n: st.tuples(
         st.lists(surface_s(kinds, 5, _i(-200, 200, 10)), min_size=n, max_size=n),
